@@ -4,6 +4,8 @@ Applies seeded/<id>/patch.diff to /repo, runs the named checks, records what the
 seeded/<id>/result.json, and always restores /repo (git checkout -- . ; untracked files removed)."""
 import json, os, subprocess, sys, time
 ROOT = os.path.dirname(os.path.dirname(os.path.abspath(__file__)))
+# the repository the checks of this tree build against (the symlink rp; /repo for /verif, the private worktree in an agent workspace)
+REPO = os.path.realpath(os.path.join(ROOT, "rp"))
 
 
 def sh(cmd, **kw):
@@ -21,10 +23,10 @@ def main():
             props = args[i + 1].split(",")
         if a == "--tier":
             tier = args[i + 1]
-    st = sh("git -C /repo status --porcelain").stdout.strip()
+    st = sh("git -C %s status --porcelain" % REPO).stdout.strip()
     if st:
-        sys.exit("/repo is not clean:\n" + st)
-    r = sh("git -C /repo apply %s" % os.path.join(d, "patch.diff"))
+        sys.exit("%s is not clean:\n" % REPO + st)
+    r = sh("git -C %s apply %s" % (REPO, os.path.join(d, "patch.diff")))
     if r.returncode != 0:
         sys.exit("patch does not apply: " + r.stdout)
     results = {}
@@ -45,8 +47,8 @@ def main():
                           "first_replay": replays[:1], "tail": rr.stdout.strip().split("\n")[-3:]}
             print(p, "exit", rr.returncode, *lines[:3], sep="\n  ")
     finally:
-        sh("git -C /repo checkout -- .")
-        sh("git -C /repo clean -fdq -e target")
+        sh("git -C %s checkout -- ." % REPO)
+        sh("git -C %s clean -fdq -e target" % REPO)
     # evidence files must describe the unchanged tree: re-run the same checks on the restored repo
     for p in props:
         rr = sh("./check %s --tier quick" % p, cwd=ROOT)
